@@ -232,12 +232,12 @@ ALinalg == \E op \in {"Determinant", "Inverse"} \cap Ops :
               /\ L >= 1 /\ Nd(L).dt \in {"f", "c"} /\ Rank(L) >= 2 /\ Static(L) /\ LastLen(L) = Nd(L).sh[Rank(L) - 1] /\ LastLen(L) <= 2
               /\ Push(Node(op, <<L>>, <<>>, IF op = "Inverse" THEN Nd(L).sh ELSE SubSeq(Nd(L).sh, 1, Rank(L) - 2), Nd(L).dt, 0, Nd(L).lp))
 
-\* Polyval(coeffs, points): points.shape[-1] = number of variables (1 or 2; 2 only in vocabularies with "PolyGrad",
-\* which keeps the base vocabulary as it was); the number of coefficients must be that of some degree
+\* Polyval(coeffs, points): points.shape[-1] = number of variables (1 or 2; 2 only in vocabularies with "PolyGrad" or the
+\* flag "Polyval2", which keeps the base vocabulary as it was); the number of coefficients must be that of some degree
 APolyvalOp == /\ "Polyval" \in Ops
               /\ \E ij \in Pairs : /\ Nd(ij[1]).dt = "f" /\ Nd(ij[2]).dt = "f" /\ Rank(ij[1]) >= 1 /\ Rank(ij[2]) >= 1
                                    /\ Static(ij[1]) /\ Static(ij[2])
-                                   /\ (LastLen(ij[2]) = 1 \/ (LastLen(ij[2]) = 2 /\ "PolyGrad" \in Ops))
+                                   /\ (LastLen(ij[2]) = 1 \/ (LastLen(ij[2]) = 2 /\ {"PolyGrad", "Polyval2"} \cap Ops # {}))
                                    /\ LastLen(ij[1]) >= 1 /\ PolyDeg(LastLen(ij[2]), LastLen(ij[1])) >= 0
                                    /\ Rank(ij[1]) + Rank(ij[2]) - 2 <= 3
                                    /\ Push(Node("Polyval", <<ij[1], ij[2]>>, <<>>, SFront(Nd(ij[2]).sh) \o SFront(Nd(ij[1]).sh), "f", 0, Lp2(ij[1], ij[2])))
